@@ -171,12 +171,13 @@ def is_inversion_of(node, src_name):
 
 
 # ------------------------------------------------------------------------------ string dispatch
-def string_dispatch(body, var):
+def string_dispatch(body, var, mod_globals=None, mod_funcs=None):
     """Extract ``if var == "a": ... elif var == "b": ... else: raise`` chains.
 
     Returns (chain: list of (key, body), else_body, node) for the first chain on ``var`` found at
-    the top level of ``body`` (descending into nothing)."""
-    d = _dict_dispatch(body, var)
+    the top level of ``body`` (descending into nothing).  ``mod_globals`` (name -> value node) lets the
+    table form refer to a module-level literal dict."""
+    d = _dict_dispatch(body, var, mod_globals, mod_funcs)
     if d is not None:
         return d
     allowed = None   # keys admitted by an earlier `if var not in [...]: raise`
@@ -231,54 +232,138 @@ def string_dispatch(body, var):
     return None
 
 
-def _dict_dispatch(body, var):
-    """The table form of the same dispatch::
+def _str_dict(node):
+    return isinstance(node, ast.Dict) and bool(node.keys) and \
+        all(isinstance(k, ast.Constant) and isinstance(k.value, str) for k in node.keys)
 
-        tbl = {"a": X, "b": Y}          # local literal dict with string keys
-        if var not in tbl: raise ...
-        name = tbl[var]                  # or  n1, n2 = tbl[var]  with tuple values
 
-    is returned as the equivalent chain with one synthetic assignment per key."""
-    tables = {}
+def _accessor_table(fn, tables):
+    """A module-level function `def acc(p): <guarded> return TBL[p]` -> (table name, raise body) or None.
+    Guard forms: try/except KeyError -> raise, `if p not in TBL: raise`, or none (the KeyError itself)."""
+    args = fn.args.args
+    if len(args) != 1:
+        return None
+    p_ = args[0].arg
+    body = [s for s in fn.body if not (isinstance(s, ast.Expr) and isinstance(s.value, ast.Constant))]
+    guard = None
+
+    def is_lookup(e):
+        return isinstance(e, ast.Subscript) and isinstance(e.value, ast.Name) and e.value.id in tables and norm(e.slice) == p_
+    for s in body:
+        if isinstance(s, ast.If) and isinstance(s.test, ast.Compare) and len(s.test.ops) == 1 and \
+                isinstance(s.test.ops[0], ast.NotIn) and norm(s.test.left) == p_ and s.body and \
+                isinstance(s.body[-1], ast.Raise) and not s.orelse:
+            guard = s.body
+        elif isinstance(s, ast.Return) and s.value is not None and is_lookup(s.value):
+            return s.value.value.id, guard or [ast.Raise(exc=None, cause=None)]
+        elif isinstance(s, ast.Try) and len(s.body) == 1 and isinstance(s.body[0], ast.Return) and \
+                s.body[0].value is not None and is_lookup(s.body[0].value) and s.handlers and \
+                all(h.body and isinstance(h.body[-1], ast.Raise) for h in s.handlers):
+            return s.body[0].value.value.id, s.handlers[0].body
+        else:
+            return None
+    return None
+
+
+def _dict_dispatch(body, var, mod_globals=None, mod_funcs=None):
+    """The table form of the same dispatch.  Look-ups of ``var`` in literal dicts with string keys
+    (local, or module-level when ``mod_globals`` is given), directly or through a module-level
+    accessor function (``mod_funcs``), optionally followed by a constant index / slice::
+
+        tbl = {"a": (X, Y), "b": (U, V)}
+        if var not in tbl: raise ...            # or try/except KeyError, or an accessor that raises
+        n1, n2 = tbl[var]                        # name = tbl[var][0]; n1, n2 = acc(var)[:2]; ...
+
+    are returned as the equivalent chain with synthetic assignments per key (several look-up
+    statements are merged)."""
+    tables = {g: v for g, v in (mod_globals or {}).items() if _str_dict(v)}
+    accessors = {}
+    for name, fn in (mod_funcs or {}).items():
+        r = _accessor_table(fn, tables)
+        if r is not None:
+            accessors[name] = r
+    per_key = {}
+    order = None
+    else_body = None
+    first = None
+
+    def lookup(e):
+        """(table name, selector, raise body or None) for a look-up expression of `var`."""
+        sel = None
+        if isinstance(e, ast.Subscript) and not (isinstance(e.value, ast.Name) and e.value.id in tables
+                                                 and norm(e.slice) == var):
+            inner = lookup(e.value)
+            if inner is not None and inner[1] is None:
+                return inner[0], e.slice, inner[2]
+            return None
+        if isinstance(e, ast.Subscript) and isinstance(e.value, ast.Name) and e.value.id in tables and norm(e.slice) == var:
+            return e.value.id, sel, None
+        if isinstance(e, ast.Call) and isinstance(e.func, ast.Name) and e.func.id in accessors and len(e.args) == 1 \
+                and norm(e.args[0]) == var and not e.keywords:
+            return accessors[e.func.id][0], None, accessors[e.func.id][1]
+        return None
+
+    def select(v, sel):
+        if sel is None:
+            return v
+        if not isinstance(v, ast.Tuple):
+            return None
+        if isinstance(sel, ast.Constant) and isinstance(sel.value, int) and -len(v.elts) <= sel.value < len(v.elts):
+            return v.elts[sel.value]
+        if isinstance(sel, ast.Slice) and sel.step is None:
+            try:
+                lo = fold(sel.lower) if sel.lower is not None else None
+                hi = fold(sel.upper) if sel.upper is not None else None
+            except NotConstant:
+                return None
+            t = ast.Tuple(elts=v.elts[lo:hi], ctx=ast.Load())
+            return ast.copy_location(t, v)
+        return None
+
+    def take(asg, guard_body, node):
+        nonlocal order, else_body, first
+        lk = lookup(asg.value)
+        if lk is None or len(asg.targets) != 1:
+            return False
+        tname, sel, gb = lk
+        tbl = tables[tname]
+        keys = [k.value for k in tbl.keys]
+        if order is None:
+            order = keys
+        elif set(keys) != set(order):
+            raise AnalysisError(f"dispatch tables disagree on their keys: {sorted(keys)} vs {sorted(order)}")
+        for k, v in zip(tbl.keys, tbl.values):
+            picked = select(v, sel)
+            if picked is None:
+                raise AnalysisError(f"unrecognised idiom: `{norm(asg)[:60]}` selects from a non-tuple table value")
+            syn = ast.Assign(targets=[asg.targets[0]], value=picked)
+            ast.copy_location(syn, v)
+            per_key.setdefault(k.value, []).append(syn)
+        gbody = guard_body or gb
+        if gbody is not None and else_body is None:
+            else_body = gbody
+        first = first or node
+        return True
     guard = None
     for s in body:
-        if isinstance(s, ast.Assign) and len(s.targets) == 1 and isinstance(s.targets[0], ast.Name) and \
-                isinstance(s.value, ast.Dict) and s.value.keys and \
-                all(isinstance(k, ast.Constant) and isinstance(k.value, str) for k in s.value.keys):
+        if isinstance(s, ast.Assign) and len(s.targets) == 1 and isinstance(s.targets[0], ast.Name) and _str_dict(s.value):
             tables[s.targets[0].id] = s.value
         elif isinstance(s, ast.If) and isinstance(s.test, ast.Compare) and len(s.test.ops) == 1 and \
                 isinstance(s.test.ops[0], ast.NotIn) and norm(s.test.left) == var and \
                 isinstance(s.test.comparators[0], ast.Name) and s.test.comparators[0].id in tables and \
                 s.body and isinstance(s.body[-1], ast.Raise) and not s.orelse:
-            guard = (s, s.test.comparators[0].id)
-        elif guard is not None and isinstance(s, ast.Assign) and len(s.targets) == 1 and \
-                isinstance(s.value, ast.Subscript) and norm(s.value.value) == guard[1] and norm(s.value.slice) == var:
-            tbl = tables[guard[1]]
-            chain = []
-            for k, v in zip(tbl.keys, tbl.values):
-                syn = ast.Assign(targets=[s.targets[0]], value=v)
-                ast.copy_location(syn, v)
-                chain.append((k.value, [syn]))
-            return chain, guard[0].body, guard[0]
-        elif isinstance(s, ast.Try) and len(s.body) == 1 and isinstance(s.body[0], ast.Assign) and \
-                len(s.body[0].targets) == 1 and isinstance(s.body[0].value, ast.Subscript) and \
-                isinstance(s.body[0].value.value, ast.Name) and s.body[0].value.value.id in tables and \
-                norm(s.body[0].value.slice) == var and s.handlers and not s.orelse and not s.finalbody and \
-                all(h.body and isinstance(h.body[-1], ast.Raise) for h in s.handlers) and \
-                any("KeyError" in norm(h.type) for h in s.handlers if h.type is not None):
-            # try: name(s) = tbl[var]   except KeyError: raise ...
-            asg = s.body[0]
-            tbl = tables[asg.value.value.id]
-            chain = []
-            for k, v in zip(tbl.keys, tbl.values):
-                syn = ast.Assign(targets=[asg.targets[0]], value=v)
-                ast.copy_location(syn, v)
-                chain.append((k.value, [syn]))
-            return chain, s.handlers[0].body, s
-        elif guard is not None and any(isinstance(n, ast.Name) and n.id == guard[1] and isinstance(n.ctx, ast.Store)
-                                       for n in ast.walk(s)):
-            return None
-    return None
+            guard = s
+        elif isinstance(s, ast.Assign):
+            take(s, guard.body if guard is not None else None, guard or s)
+        elif isinstance(s, ast.Try) and len(s.body) == 1 and isinstance(s.body[0], ast.Assign) and s.handlers and \
+                not s.orelse and not s.finalbody and all(h.body and isinstance(h.body[-1], ast.Raise) for h in s.handlers) \
+                and any("KeyError" in norm(h.type) for h in s.handlers if h.type is not None):
+            take(s.body[0], s.handlers[0].body, s)
+    if not per_key:
+        return None
+    if else_body is None:
+        else_body = [ast.Raise(exc=None, cause=None)]   # an unguarded look-up rejects unknown keys with KeyError
+    return [(k, per_key[k]) for k in order], else_body, first
 
 
 def _eq_keys(test, var):
